@@ -49,13 +49,39 @@ def lerpClamped (x xl xr yl yr : α) : α :=
   let yl' := if xr < x then yr' else yl
   yl' + (yr' - yl') / (xr - xl) * (x - xl)
 
+/-- the `while` search returns the first index `i ≥ i0` whose right knot is not below `x` -/
+theorem scan_ok (x : α) (xs : List α) (f i0 i : Nat) (h : scan x xs f i0 = .ok i) :
+    i0 ≤ i ∧ (∀ j, i0 < j → j ≤ i → ∃ v, xs[j]? = some v ∧ v < x) ∧
+      ∃ v, xs[i + 1]? = some v ∧ ¬ v < x := by
+  induction f generalizing i0 with
+  | zero => simp [scan] at h
+  | succ f ih =>
+    unfold scan at h
+    simp only [bind, pure, bind_ok_iff] at h
+    obtain ⟨v, hv, h⟩ := h
+    rw [getA_ok_iff] at hv
+    split_ifs at h with hlt
+    · obtain ⟨h1, h2, h3⟩ := ih _ h
+      refine ⟨by omega, fun j hj1 hj2 => ?_, h3⟩
+      by_cases hj : j = i0 + 1
+      · subst hj; exact ⟨v, hv, hlt⟩
+      · exact h2 j (by omega) hj2
+    · cases h
+      exact ⟨le_refl _, fun j hj1 hj2 => by omega, v, hv, hlt⟩
+
+/-- how `interp1d` selects the interval `i, i+1`: the last interval if its left knot is `≤ x`,
+    otherwise the first interval whose right knot is not below `x` -/
+def Sel (x : α) (xs : List α) (i : Nat) : Prop :=
+  (i + 2 = xs.length ∧ ∃ v, xs[i]? = some v ∧ v ≤ x) ∨
+  ((∀ j, 0 < j → j ≤ i → ∃ v, xs[j]? = some v ∧ v < x) ∧ ∃ v, xs[i + 1]? = some v ∧ ¬ v < x)
+
 /-- What an accepted `interp1d` call returns: either the constant-map shortcut fired (every `y`
     knot equals the result), or an interval `i, i+1` inside both lists was selected and the result
     is the clamped two-point formula on it. -/
 theorem interp1d_ok_cases (x : α) (xs ys : List α) (y : α) (h : interp1d x xs ys = .ok y) :
     ((∀ v ∈ ys, v = y) ∧ y = mean ys) ∨
     ∃ i xl xr yl yr, xs[i]? = some xl ∧ xs[i + 1]? = some xr ∧ ys[i]? = some yl ∧
-      ys[i + 1]? = some yr ∧ y = lerpClamped x xl xr yl yr := by
+      ys[i + 1]? = some yr ∧ Sel x xs i ∧ y = lerpClamped x xl xr yl yr := by
   unfold interp1d at h
   simp only [bind, pure] at h
   split_ifs at h with hc hx hs
@@ -64,10 +90,15 @@ theorem interp1d_ok_cases (x : α) (xs ys : List α) (y : α) (h : interp1d x xs
     exact ⟨(all_eqb_iff _ _).mp hc, rfl⟩
   · right
     simp only [bind_ok_iff] at h
-    obtain ⟨x2, -, i, -, xl, hxl, yl, hyl, xr, hxr, yr, hyr, hy⟩ := h
+    obtain ⟨x2, hx2, i, hi, xl, hxl, yl, hyl, xr, hxr, yr, hyr, hy⟩ := h
     cases hy
-    exact ⟨i, xl, xr, yl, yr, (getA_ok_iff _ _ _).mp hxl, (getA_ok_iff _ _ _).mp hxr,
-      (getA_ok_iff _ _ _).mp hyl, (getA_ok_iff _ _ _).mp hyr, rfl⟩
+    refine ⟨i, xl, xr, yl, yr, (getA_ok_iff _ _ _).mp hxl, (getA_ok_iff _ _ _).mp hxr,
+      (getA_ok_iff _ _ _).mp hyl, (getA_ok_iff _ _ _).mp hyr, ?_, rfl⟩
+    split_ifs at hi with hle
+    · cases hi
+      exact Or.inl ⟨by omega, x2, (getA_ok_iff _ _ _).mp hx2, hle⟩
+    · obtain ⟨-, h2, h3⟩ := scan_ok _ _ _ _ _ hi
+      exact Or.inr ⟨h2, h3⟩
 
 /-- the clamped two-point formula stays between the bounds of its two `y` values.
     `hne` guards the division by `xr - xl`. -/
@@ -99,5 +130,240 @@ theorem lerpClamped_range (x xl xr yl yr lo hi : α) (hne : xl ≠ xr)
           mul_nonneg ht0 (sub_nonneg.mpr hr.1)]
       · nlinarith [mul_nonneg (sub_nonneg.mpr ht1) (sub_nonneg.mpr hl.2),
           mul_nonneg ht0 (sub_nonneg.mpr hr.2)]
+
+/-- **interp1d stays inside the range of its map** — x grid NOT assumed sorted.
+    * `hys`  : forced — for `ys = []` the constant-map shortcut returns `mean [] = 0/0`.
+    * `hsel` : guard for the division by `xr - xl` on the selected interval.  (In the ordered-field
+      model `a / 0 = 0` and the clamps zero the numerator, so the proof could do without; at `Float`
+      `0/0` is NaN, so the guard is what makes the statement honest.) -/
+theorem interp1d_range_of_sel (x : α) (xs ys : List α) (y lo hi : α)
+    (h : interp1d x xs ys = .ok y) (hys : ys ≠ [])
+    (hsel : ∀ i xl xr, Sel x xs i → xs[i]? = some xl → xs[i + 1]? = some xr → xl ≠ xr)
+    (hb : ∀ v ∈ ys, lo ≤ v ∧ v ≤ hi) : lo ≤ y ∧ y ≤ hi := by
+  rcases interp1d_ok_cases x xs ys y h with ⟨hc, -⟩ | ⟨i, xl, xr, yl, yr, hxl, hxr, hyl, hyr, hs, rfl⟩
+  · obtain ⟨v, hv⟩ := List.exists_mem_of_ne_nil ys hys
+    rw [← hc v hv]; exact hb v hv
+  · exact lerpClamped_range x xl xr yl yr lo hi (hsel i xl xr hs hxl hxr)
+      (hb yl (List.mem_of_getElem? hyl)) (hb yr (List.mem_of_getElem? hyr))
+
+/-- adjacency form: no two ADJACENT `x` knots are equal (the grid need not be sorted) -/
+theorem interp1d_range (x : α) (xs ys : List α) (y lo hi : α)
+    (h : interp1d x xs ys = .ok y) (hys : ys ≠ []) (hadj : xs.IsChain (· ≠ ·))
+    (hb : ∀ v ∈ ys, lo ≤ v ∧ v ≤ hi) : lo ≤ y ∧ y ≤ hi := by
+  refine interp1d_range_of_sel x xs ys y lo hi h hys (fun i xl xr _ hl hr => ?_) hb
+  obtain ⟨h1, rfl⟩ := List.getElem?_eq_some_iff.mp hl
+  obtain ⟨h2, rfl⟩ := List.getElem?_eq_some_iff.mp hr
+  exact hadj.getElem i h2
+
+/-- weakest list-level guard: only the FIRST and the LAST interval can be selected with equal ends
+    (an interval `i ≥ 1` found by the scan has `xs[i] < x ≤ xs[i+1]`). -/
+theorem interp1d_range_ends (x : α) (xs ys : List α) (y lo hi : α)
+    (h : interp1d x xs ys = .ok y) (hys : ys ≠ [])
+    (hfirst : ∀ a b, xs[0]? = some a → xs[1]? = some b → a ≠ b)
+    (hlast : ∀ a b, xs[xs.length - 2]? = some a → xs[xs.length - 1]? = some b → a ≠ b)
+    (hb : ∀ v ∈ ys, lo ≤ v ∧ v ≤ hi) : lo ≤ y ∧ y ≤ hi := by
+  refine interp1d_range_of_sel x xs ys y lo hi h hys (fun i xl xr hs hl hr => ?_) hb
+  rcases hs with ⟨hn, -⟩ | ⟨hj, v, hv, hnv⟩
+  · have e1 : xs.length - 2 = i := by omega
+    have e2 : xs.length - 1 = i + 1 := by omega
+    exact hlast xl xr (by rw [e1]; exact hl) (by rw [e2]; exact hr)
+  · rcases Nat.eq_zero_or_pos i with rfl | hpos
+    · exact hfirst xl xr hl hr
+    · obtain ⟨w, hw, hwx⟩ := hj i hpos (le_refl _)
+      rw [hl] at hw; cases hw
+      rw [hr] at hv; cases hv
+      exact fun e => hnv (e ▸ hwx)
+
+/-- two-point maps (the SOC ramps of the battery) -/
+theorem interp1d_range_two (x a b ya yb y lo hi : α)
+    (h : interp1d x [a, b] [ya, yb] = .ok y) (hab : a ≠ b)
+    (ha : lo ≤ ya ∧ ya ≤ hi) (hb : lo ≤ yb ∧ yb ≤ hi) : lo ≤ y ∧ y ≤ hi := by
+  refine interp1d_range x [a, b] [ya, yb] y lo hi h (by simp) (by simp [hab]) ?_
+  intro v hv
+  simp only [List.mem_cons, List.not_mem_nil, or_false] at hv
+  rcases hv with rfl | rfl
+  · exact ha
+  · exact hb
+
+/-- η ∈ (0,1] whenever all map values are (strict lower bound version of `interp1d_range`) -/
+theorem interp1d_pos_le_one (x : α) (xs ys : List α) (y : α)
+    (h : interp1d x xs ys = .ok y) (hys : ys ≠ []) (hadj : xs.IsChain (· ≠ ·))
+    (hb : ∀ v ∈ ys, 0 < v ∧ v ≤ 1) : 0 < y ∧ y ≤ 1 := by
+  rcases interp1d_ok_cases x xs ys y h with ⟨hc, -⟩ | ⟨i, xl, xr, yl, yr, hxl, hxr, hyl, hyr, -, rfl⟩
+  · obtain ⟨v, hv⟩ := List.exists_mem_of_ne_nil ys hys
+    rw [← hc v hv]; exact hb v hv
+  · obtain ⟨h1, rfl⟩ := List.getElem?_eq_some_iff.mp hxl
+    obtain ⟨h2, rfl⟩ := List.getElem?_eq_some_iff.mp hxr
+    have hl := hb yl (List.mem_of_getElem? hyl)
+    have hr := hb yr (List.mem_of_getElem? hyr)
+    have := lerpClamped_range x _ _ yl yr (min yl yr) 1 (hadj.getElem i h2)
+      ⟨min_le_left _ _, hl.2⟩ ⟨min_le_right _ _, hr.2⟩
+    exact ⟨lt_of_lt_of_le (lt_min hl.1 hr.1) this.1, this.2⟩
+
+/-- an accepted call that did not take the constant-map shortcut has both lists of length ≥ 2
+    and, more precisely, the selected interval inside both -/
+theorem interp1d_ok_lengths (x : α) (xs ys : List α) (y : α) (h : interp1d x xs ys = .ok y) :
+    (∀ v ∈ ys, v = y) ∨ (2 ≤ xs.length ∧ 2 ≤ ys.length) := by
+  rcases interp1d_ok_cases x xs ys y h with ⟨hc, -⟩ | ⟨i, xl, xr, yl, yr, -, hxr, -, hyr, -, -⟩
+  · exact Or.inl hc
+  · have h1 := (List.getElem?_eq_some_iff.mp hxr).1
+    have h2 := (List.getElem?_eq_some_iff.mp hyr).1
+    exact Or.inr ⟨by omega, by omega⟩
+
+/-! ### `interp3d` -/
+
+theorem windowPos_some (q : α) (l : List α) (i0 p : Nat) (h : windowPos q l i0 = some p) :
+    i0 ≤ p ∧ ∃ a b, l[p - i0]? = some a ∧ l[p - i0 + 1]? = some b ∧ a ≤ q ∧ q < b := by
+  induction l generalizing i0 with
+  | nil => simp [windowPos] at h
+  | cons a t ih =>
+    cases t with
+    | nil => simp [windowPos] at h
+    | cons b t =>
+      unfold windowPos at h
+      split_ifs at h with hc
+      · cases h
+        exact ⟨le_refl _, a, b, by simp, by simp, hc.1, hc.2⟩
+      · obtain ⟨h1, a', b', ha, hb, hq⟩ := ih _ h
+        refine ⟨by omega, a', b', ?_, ?_, hq⟩
+        · have : p - i0 = (p - (i0 + 1)) + 1 := by omega
+          rw [this, List.getElem?_cons_succ]; exact ha
+        · have : p - i0 + 1 = (p - (i0 + 1) + 1) + 1 := by omega
+          rw [this, List.getElem?_cons_succ]; exact hb
+
+theorem interpDiff_self (v a : α) : interpDiff v a a = 0 := by
+  unfold interpDiff; rw [if_pos ((eqb_iff a a).mpr rfl)]
+
+theorem interpDiff_between (v a b : α) (h1 : a ≤ v) (h2 : v < b) :
+    0 ≤ interpDiff v a b ∧ interpDiff v a b ≤ 1 := by
+  unfold interpDiff
+  have hab : a < b := lt_of_le_of_lt h1 h2
+  have hne : eqb a b = false := (eqb_false_iff a b).mpr (ne_of_lt hab)
+  simp only [hne, Bool.false_eq_true, if_false]
+  have hd : 0 < b - a := sub_pos.mpr hab
+  exact ⟨div_nonneg (sub_nonneg.mpr h1) hd.le, by rw [div_le_one hd]; linarith⟩
+
+/-- the blend weight computed from the indices `find_interp_indices` returns lies in `[0,1]`;
+    no hypothesis on the axis is needed: a window is only selected when `a ≤ q < b`, which makes
+    `a < b`, and the clamped / exact-hit outcomes return twice the same index (weight 0). -/
+theorem findInterpIndices_weight (q : α) (axis : List α) (i0 i1 : Nat) (a b : α)
+    (h : findInterpIndices q axis = .ok (i0, i1)) (ha : getA axis i0 = .ok a)
+    (hb : getA axis i1 = .ok b) : 0 ≤ interpDiff q a b ∧ interpDiff q a b ≤ 1 := by
+  have same : ∀ {i : Nat}, (i0, i1) = (i, i) → 0 ≤ interpDiff q a b ∧ interpDiff q a b ≤ 1 := by
+    intro i e
+    simp only [Prod.mk.injEq] at e
+    obtain ⟨rfl, rfl⟩ := e
+    rw [ha] at hb; cases hb
+    rw [interpDiff_self]; exact ⟨le_refl _, zero_le_one⟩
+  unfold findInterpIndices at h
+  split at h
+  · rename_i p hp
+    obtain ⟨-, a', b', ha', hb', hq1, hq2⟩ := windowPos_some q axis 0 p hp
+    simp only [Nat.sub_zero] at ha' hb'
+    simp only [bind, pure, bind_ok_iff] at h
+    obtain ⟨ap, hap, h⟩ := h
+    split_ifs at h with e1
+    · cases h; exact same rfl
+    · simp only [bind_ok_iff] at h
+      obtain ⟨ap1, hap1, h⟩ := h
+      split_ifs at h with e2
+      · cases h; exact same rfl
+      · cases h
+        rw [getA_ok_iff] at ha hb
+        rw [ha'] at ha; rw [hb'] at hb
+        cases ha; cases hb
+        exact interpDiff_between q _ _ hq1 hq2
+  · simp only [bind, pure, bind_ok_iff] at h
+    obtain ⟨a0, -, h⟩ := h
+    split_ifs at h with e1
+    · cases h; exact same rfl
+    · simp only [bind_ok_iff] at h
+      obtain ⟨al, -, h⟩ := h
+      split_ifs at h with e2
+      cases h; exact same rfl
+
+theorem get3_ok_mem (vals : List (List (List α))) (i j k : Nat) (c : α)
+    (h : get3 vals i j k = .ok c) : ∃ a ∈ vals, ∃ b ∈ a, c ∈ b := by
+  unfold get3 at h
+  split at h
+  · rename_i a ha
+    split at h
+    · rename_i b hb
+      exact ⟨a, List.mem_of_getElem? ha, b, List.mem_of_getElem? hb, getA_ok_mem h⟩
+    · cases h
+  · cases h
+
+/-- convex combination of two bounded values -/
+theorem blend_range (c0 c1 t lo hi : α) (ht0 : 0 ≤ t) (ht1 : t ≤ 1)
+    (h0 : lo ≤ c0 ∧ c0 ≤ hi) (h1 : lo ≤ c1 ∧ c1 ≤ hi) :
+    lo ≤ c0 * (1 - t) + c1 * t ∧ c0 * (1 - t) + c1 * t ≤ hi := by
+  constructor
+  · nlinarith [mul_nonneg (sub_nonneg.mpr ht1) (sub_nonneg.mpr h0.1),
+      mul_nonneg ht0 (sub_nonneg.mpr h1.1)]
+  · nlinarith [mul_nonneg (sub_nonneg.mpr ht1) (sub_nonneg.mpr h0.2),
+      mul_nonneg ht0 (sub_nonneg.mpr h1.2)]
+
+/-- **interp3d stays inside the range of its table.**  No monotonicity of the axes is needed
+    (see `findInterpIndices_weight`): the three weights are in `[0,1]` for ANY axes on which the
+    call succeeds, and the result is an iterated convex combination of eight table entries. -/
+theorem interp3d_range (x y z : α) (gx gy gz : List α) (vals : List (List (List α))) (v lo hi : α)
+    (h : interp3d x y z gx gy gz vals = .ok v)
+    (hb : ∀ a ∈ vals, ∀ b ∈ a, ∀ c ∈ b, lo ≤ c ∧ c ≤ hi) : lo ≤ v ∧ v ≤ hi := by
+  unfold interp3d at h
+  simp only [bind, pure, bind_ok_iff] at h
+  obtain ⟨⟨xi0, xi1⟩, hx, ⟨yi0, yi1⟩, hy, ⟨zi0, zi1⟩, hz, ax0, hax0, ax1, hax1, ay0, hay0, ay1, hay1,
+    az0, haz0, az1, haz1, c000, h000, c100, h100, c001, h001, c101, h101, c010, h010, c110, h110,
+    c011, h011, c111, h111, hv⟩ := h
+  cases hv
+  have wx := findInterpIndices_weight x gx xi0 xi1 ax0 ax1 hx hax0 hax1
+  have wy := findInterpIndices_weight y gy yi0 yi1 ay0 ay1 hy hay0 hay1
+  have wz := findInterpIndices_weight z gz zi0 zi1 az0 az1 hz haz0 haz1
+  have m : ∀ {i j k : Nat} {c : α}, get3 vals i j k = .ok c → lo ≤ c ∧ c ≤ hi := by
+    intro i j k c hc
+    obtain ⟨a, ha, b, hb', hcb⟩ := get3_ok_mem vals i j k c hc
+    exact hb a ha b hb' c hcb
+  exact blend_range _ _ _ lo hi wz.1 wz.2
+    (blend_range _ _ _ lo hi wy.1 wy.2
+      (blend_range _ _ _ lo hi wx.1 wx.2 (m h000) (m h100))
+      (blend_range _ _ _ lo hi wx.1 wx.2 (m h010) (m h110)))
+    (blend_range _ _ _ lo hi wy.1 wy.2
+      (blend_range _ _ _ lo hi wx.1 wx.2 (m h001) (m h101))
+      (blend_range _ _ _ lo hi wx.1 wx.2 (m h011) (m h111)))
+
+/-- convex combination with a strict lower bound -/
+theorem blend_pos (c0 c1 t : α) (ht0 : 0 ≤ t) (ht1 : t ≤ 1) (h0 : 0 < c0) (h1 : 0 < c1) :
+    0 < c0 * (1 - t) + c1 * t := by
+  rcases eq_or_lt_of_le ht0 with rfl | hpos
+  · simpa using h0
+  · have : 0 ≤ c0 * (1 - t) := mul_nonneg h0.le (sub_nonneg.mpr ht1)
+    have : 0 < c1 * t := mul_pos h1 hpos
+    linarith
+
+/-- η ∈ (0,1] whenever all table entries are -/
+theorem interp3d_pos_le_one (x y z : α) (gx gy gz : List α) (vals : List (List (List α))) (v : α)
+    (h : interp3d x y z gx gy gz vals = .ok v)
+    (hb : ∀ a ∈ vals, ∀ b ∈ a, ∀ c ∈ b, 0 < c ∧ c ≤ 1) : 0 < v ∧ v ≤ 1 := by
+  refine ⟨?_, (interp3d_range x y z gx gy gz vals v 0 1 h
+    (fun a ha b hb' c hc => ⟨(hb a ha b hb' c hc).1.le, (hb a ha b hb' c hc).2⟩)).2⟩
+  unfold interp3d at h
+  simp only [bind, pure, bind_ok_iff] at h
+  obtain ⟨⟨xi0, xi1⟩, hx, ⟨yi0, yi1⟩, hy, ⟨zi0, zi1⟩, hz, ax0, hax0, ax1, hax1, ay0, hay0, ay1, hay1,
+    az0, haz0, az1, haz1, c000, h000, c100, h100, c001, h001, c101, h101, c010, h010, c110, h110,
+    c011, h011, c111, h111, hv⟩ := h
+  cases hv
+  have wx := findInterpIndices_weight x gx xi0 xi1 ax0 ax1 hx hax0 hax1
+  have wy := findInterpIndices_weight y gy yi0 yi1 ay0 ay1 hy hay0 hay1
+  have wz := findInterpIndices_weight z gz zi0 zi1 az0 az1 hz haz0 haz1
+  have m : ∀ {i j k : Nat} {c : α}, get3 vals i j k = .ok c → 0 < c := by
+    intro i j k c hc
+    obtain ⟨a, ha, b, hb', hcb⟩ := get3_ok_mem vals i j k c hc
+    exact (hb a ha b hb' c hcb).1
+  exact blend_pos _ _ _ wz.1 wz.2
+    (blend_pos _ _ _ wy.1 wy.2
+      (blend_pos _ _ _ wx.1 wx.2 (m h000) (m h100))
+      (blend_pos _ _ _ wx.1 wx.2 (m h010) (m h110)))
+    (blend_pos _ _ _ wy.1 wy.2
+      (blend_pos _ _ _ wx.1 wx.2 (m h001) (m h101))
+      (blend_pos _ _ _ wx.1 wx.2 (m h011) (m h111)))
 
 end Altrios.Proofs.InterpL
